@@ -286,7 +286,7 @@ class ModGen:
     def generate(self, is_top):
         d, o, spec = self.d, self.o, self.spec
         from .model import target_iface
-        nports = d.int(0 if is_top else 1, 3)
+        nports = d.int(0 if (is_top or d.bool(12)) else 1, 3)  # sub-modules without any port are legal too
         for k in range(nports):
             self.sigs.append(["p%d" % k, d.width(o.wide), d.choice(DIRS)])
         for k in range(d.int(1, 3)):
